@@ -16,6 +16,6 @@ Separate Extraction
   De.de_datum De.cfg_default Reader.slice_reader Reader.chunked_reader
   VectoredWrite.write_all_vectored
   AvroValue.conforms Encoding.encode_e Encoding.erase Encoding.layout_ok Encoding.canon Encoding.spec_encode
-  Container.wbuild Container.wrun Container.cr_open Container.cr_run Container.mkCR
+  Container.wbuild Container.wrun Container.cr_open Container.cr_run Container.mkCR Container.header_meta
   FileSpec.ref_parse
   Denote.dval_any Denote.present Denote.erase_borrow Denote.typed_target Denote.dval_typed.
